@@ -187,6 +187,13 @@ func (c *MapCodec) Read(data []byte, ptr unsafe.Pointer, wt plenccore.WireType) 
 // readMapEntry reads out a single map entry. mp is the map pointer. k is an
 // area to read key values into. data is the raw data for this map entry
 func (c *MapCodec) readMapEntry(mp, k unsafe.Pointer, data []byte) (int, error) {
+	if len(data) == 0 {
+		// Neither key nor value is present: both are zero values
+		val := mapassign(unpackEFace(c.rtype).data, mp, c.kZero)
+		typedmemmove(unpackEFace(c.rtype.Elem()).data, val, c.vZero)
+		return 0, nil
+	}
+
 	offset, fieldEnd, index, wt, err := c.readTagAndLength(data, 0)
 	if err != nil {
 		return 0, err
@@ -230,6 +237,9 @@ func (c *MapCodec) readMapEntry(mp, k unsafe.Pointer, data []byte) (int, error) 
 
 func (c *MapCodec) readTagAndLength(data []byte, offset int) (offset2, fieldEnd, index int, wt plenccore.WireType, err error) {
 	wt, index, n := plenccore.ReadTag(data[offset:])
+	if n <= 0 {
+		return 0, 0, 0, wt, fmt.Errorf("invalid tag in entry of %s", c.rtype.Name())
+	}
 	offset += n
 	fieldEnd = len(data)
 	if wt == plenccore.WTLength {
